@@ -137,6 +137,9 @@ CropTight == (lastop = "crop" /\ Valid # {}) =>
                 (Min(RowsV) = 1 /\ Max(RowsV) = shape[1] /\ Min(ColsV) = 1 /\ Max(ColsV) = shape[2])
 
 View == <<shape, dx, invalid, cxy, crt>>
+\* state constraint for the directed exploration "read polar coordinates, change something, read again, ...":
+\* odd positions of the history are reads of r / t (which also cache x / y), even positions are anything else
+Alternating == \A k \in 1..Len(hist) : ((k % 2) = 1) <=> (hist[k].op = "read_rt")
 Rec == [init |-> init, hist |-> hist]
 Emit == (EmitOn /\ (EmitLen = 0 \/ Len(hist) = EmitLen)) => PrintT(<<"EMIT", ToJson(Rec)>>)
 =============================================================================
